@@ -5,7 +5,7 @@ refuting events: S_ref non-empty and the call raised anything; S_ref empty and
 the call returned; any exception other than SolveFailure from inside the
 library on a legal program.  M2 gives the same answer from the inside (hard
 formula UNSAT on the solver clone <=> S_ref empty)."""
-from .. import common, gen, solvercase as SC, oracle as O, ref as R
+from .. import common, gen, judge as J, ref as R
 from ..libstate import reset_lib_state
 from ..findings import classify
 
@@ -44,80 +44,15 @@ def gen_case(rng, tier, idx):
 
 
 def exec_case(spec):
-    cnt = common.Counters()
-    viol = []
-    nontrivial = False
-    try:
-        sess, evs = SC.run(spec)
-    except R.Corner as c:
-        reset_lib_state()
-        return {"status": common.INCONC, "kind": "corner-at-build", "msg": str(c)}
-    for ev in evs:
-        if not SC.is_call(ev):
-            continue
-        cnt.inc("calls")
-        call = ev.get("call")
-        if call is None:
-            cnt.inc("corner_calls")
-            continue
-        try:
-            if call.domain_size() > spec.get("max_points", 1024):
-                cnt.inc("too_large")
-                continue
-            sols = call.enumerate(limit=spec.get("max_points", 1024))
-        except R.Corner:
-            cnt.inc("corner_calls")
-            continue
-        head = SC.src_op(ev["op"]).split("\n")[0]
-        sat = len(sols) > 0
-        cnt.inc("sat_calls_ref" if sat else "unsat_calls_ref")
-        if not sat or len(sols) < call.domain_size():
-            nontrivial = True
-        oc = ev["outcome"]
-        if oc == "ok":
-            if not sat:
-                viol.append(("unsat-returned-normally", "%s returned values %s although no assignment satisfies the constraints" % (
-                    head, O.post_env(call, ev["post"]))))
-            else:
-                cnt.inc("agree_sat")
-        elif oc == "SolveFailure":
-            if sat:
-                viol.append(("spurious-solve-failure", "%s raised SolveFailure although %d of %d assignments satisfy the constraints, e.g. %s" % (
-                    head, len(sols), call.domain_size(), dict(zip([".".join(map(str, p)) for p, _ in call.rand_leaves], sols[0])))))
-            else:
-                cnt.inc("agree_unsat")
-        else:
-            viol.append(("other-exception", "%s raised %s (%s) %s" % (head, ev.get("exc_type"), ev.get("exc_msg"),
-                                                                      "[satisfiable]" if sat else "[unsatisfiable]")))
-            ev_tb = ev.get("exc_tb", "")
-            viol[-1] = (viol[-1][0], viol[-1][1] + " || " + ev_tb[-400:])
-        # from the inside: hard formula satisfiable on the clone <=> S_ref non-empty
-        recs = ev.get("records") or []
-        if len(recs) == 1 and recs[0].batches:
-            cnt.inc("hook_calls")
-            try:
-                lib_sat = all(b.hard_sat() for b in recs[0].batches)
-                # a failing batch stops the library before later batches are built: only "all built batches SAT"
-                # with every rand set built is comparable
-                if len(recs[0].batches) and not lib_sat and sat:
-                    viol.append(("formula-unsat-but-ref-sat", "%s: a solver batch is UNSAT although the reference has solutions" % head))
-                if lib_sat and not sat and recs[0].solved == len(recs[0].batches) and oc == "ok":
-                    pass  # already reported as unsat-returned-normally
-            except Exception:
-                cnt.inc("hook_errors")
-    SC.release(evs)
-    res = {"counters": dict(cnt), "nontrivial": nontrivial, "source": SC.source_of(spec)}
-    if viol:
-        res.update(status=common.VIOL, kind=viol[0][0], msg=" || ".join(v[1] for v in viol[:3]))
-        res["finding"] = classify("C02", spec, viol, evs)
-    else:
-        res["status"] = common.HELD if (cnt.get("agree_sat") or cnt.get("agree_unsat")) else common.NOOBS
-    return res
+    res = J.judge(spec, J.OUTCOME_KINDS)
+    if res.get("status") == common.INCONC:
+        return res
+    return J.finish(res, "C02", spec, observed_key="calls")
 
 
 def min_observation(tot, status_n, tier):
     if tot.get("agree_sat", 0) < 50 or tot.get("agree_unsat", 0) < 20:
         return False, "too few satisfiable (%d) or unsatisfiable (%d) calls judged" % (tot.get("agree_sat", 0), tot.get("agree_unsat", 0))
-    if tot.get("hook_calls", 0) == 0:
+    if tot.get("hook_batches", 0) == 0:
         return False, "hook monitor observed nothing"
     return True, ""
